@@ -261,6 +261,9 @@ class TMGRSchedulingComponent(rpu.ClientComponent):
                         self.advance(early_tasks, rps.TMGR_STAGING_INPUT_PENDING,
                                      publish=True, push=True)
 
+                        # those tasks are on their way now - forget them
+                        del self._early[pid]
+
             # let the scheduler know
             self.add_pilots([pilot['uid'] for pilot in pilots])
 
